@@ -540,6 +540,52 @@ pub fn targeted_family(k: usize) -> Vec<DiagSpec> {
     out
 }
 
+/// Gadget webs W(g, s): g phase gadgets (hub of phase 0 or, for the first, pi; one leaf each) and s plain support
+/// spiders carrying an output; EVERY choice of hub-hub Hadamard edges and EVERY attachment of every hub to a subset of
+/// the supports. Covers gadget groups with equal, nested, disjoint and mutually supporting neighbourhoods at once.
+/// The i-th diagram of the family is decoded from its index (so the family can be swept as a range).
+pub fn gadget_web_count(g: usize, s: usize) -> u64 {
+    let hh = g * (g - 1) / 2;
+    (1u64 << hh) * (1u64 << (s * g)) * 4
+}
+pub fn gadget_web_at(g: usize, s: usize, mut idx: u64) -> DiagSpec {
+    let hh = g * (g - 1) / 2;
+    let variant = (idx % 4) as usize;
+    idx /= 4;
+    let em = idx & ((1 << hh) - 1);
+    idx >>= hh;
+    let leafph = [[(1i16, 4i16), (1, 4), (1, 4), (1, 4)], [(1, 4), (3, 4), (1, 2), (-1, 4)], [(1, 1), (1, 4), (0, 1), (1, 2)], [(1, 4), (1, 4), (3, 4), (3, 4)]];
+    let mut d = DiagSpec::empty();
+    let sup: Vec<u8> = (0..s).map(|i| d.add(1, [(0, 1), (1, 4)][i % 2])).collect();
+    let mut hubs = vec![];
+    for j in 0..g {
+        let h = d.add(1, if j == 0 && variant == 2 { (1, 1) } else { (0, 1) });
+        let l = d.add(1, leafph[variant][j % 4]);
+        d.edges.push((h, l, true));
+        for (i, &x) in sup.iter().enumerate() {
+            if (idx >> (j * s + i)) & 1 == 1 {
+                d.edges.push((h, x, true));
+            }
+        }
+        hubs.push(h);
+    }
+    let mut e = 0;
+    for a in 0..g {
+        for b in a + 1..g {
+            if (em >> e) & 1 == 1 {
+                d.edges.push((hubs[a], hubs[b], true));
+            }
+            e += 1;
+        }
+    }
+    for &x in &sup {
+        let b = d.add(0, (0, 1));
+        d.edges.push((x, b, false));
+        d.outputs.push(b);
+    }
+    d
+}
+
 pub fn replay(w: &Value) -> Option<Violation> {
     let spec = DiagSpec::from_json(&w["spec"])?;
     let mut st = Stats::default();
